@@ -247,6 +247,11 @@ def cases(tier, seed):
     for name, p in patterns():
         cid += 1
         out.append({"id": cid, "name": name, "prog": p, "seed": seed})
+    # random programs over the MPC-compilable operations (mixed shapes, containers, linear algebra), see randprog.py
+    from . import randprog
+    for name, p, _its in randprog.programs(seed + 17, 80 if tier == "quick" else 1500, sts=("b", "u8", "i8")):
+        cid += 1
+        out.append({"id": cid, "name": name, "prog": p, "seed": seed})
     n = 150 if tier == "quick" else 2500
     for k in range(n):
         cid += 1
